@@ -178,6 +178,37 @@ func classifyLoop(p *Prog, fn *ssa.Function, h *ssa.BasicBlock, body map[*ssa.Ba
 			}
 		}
 	}
+	// rotated counted loop ("for i := range n"): i = phi(0, i+1); the test (i+1) < n sits at the bottom
+	for _, in := range h.Instrs {
+		phi, ok := in.(*ssa.Phi)
+		if !ok {
+			continue
+		}
+		for i, e := range phi.Edges {
+			if !body[h.Preds[i]] {
+				continue
+			}
+			inc, ok := e.(*ssa.BinOp)
+			if !ok || inc.Op != token.ADD || inc.X != ssa.Value(phi) {
+				continue
+			}
+			if c, ok := constInt(inc.Y); !ok || c <= 0 {
+				continue
+			}
+			latch := h.Preds[i]
+			lif, ok := latch.Instrs[len(latch.Instrs)-1].(*ssa.If)
+			if !ok {
+				continue
+			}
+			cmp, ok := lif.Cond.(*ssa.BinOp)
+			if !ok || cmp.Op != token.LSS || cmp.X != ssa.Value(inc) || latch.Succs[0] != h {
+				continue
+			}
+			if invariantIn(cmp.Y, body, map[ssa.Value]bool{}) {
+				return "counted", "rotated loop: " + describeValue(p, phi) + " grows by a positive constant and the loop is repeated only while it stays below the invariant bound " + describeValue(p, cmp.Y)
+			}
+		}
+	}
 	// induction variables
 	for _, in := range h.Instrs {
 		phi, ok := in.(*ssa.Phi)
